@@ -533,7 +533,7 @@ func VsymC18Raw() {
 	vr.Assert(r.KeyID == c18KeyID && string(r.KeySpec) == c18KeySpecs[ksIdx] && string(r.Hash) == c18Hashes[ksIdx] && r.ContractVersion == plugin.ContractVersion, "generate-signature request carries the key id, the described key spec and the hash bound to it")
 	vr.Assert(string(r.Payload) == string(envkit.Env.ToBeSigned), "the plugin signs what the envelope asked to be signed")
 	vr.Assert(envkit.Env.NewCalls == 1 && envkit.Env.NewMedia[0] == reqType, "the envelope is of the requested format")
-	vr.Assert(string(sig) == string(envkit.Env.SignedRaw), "the returned signature is the envelope that was built")
+	vr.Assert(string(sig) == string(envkit.Env.SignedRaw)+"0", "the returned signature is the envelope that was built")
 	vr.Assert(len(envkit.Env.VerifiedOK) == 1 && envkit.Env.VerifiedOK[0].Signed, "the built envelope was verified before it was returned")
 	q := envkit.Env.Req
 	vr.Assert(q != nil && q.Payload.ContentType == c18PayloadType && vr.JSONEqual(q.Payload.Content, c18WantPayload(desc)), "the signed payload is the Notary payload of the request")
